@@ -1,5 +1,6 @@
 import DvcData.Model.IndexUpdate
 import DvcData.Proofs.AList
+import DvcData.Props.C08
 /-
   C13 (carried-over hashes, directories): `update()` carries a directory's tree hash only when nothing that the diff
   reports strictly below the directory is added, deleted or modified (F26).
@@ -101,6 +102,42 @@ theorem update_dir_hash_only_if_clean (old new : Index) (k : Key) (e' : Entry)
   rcases hh with hh | hh
   · exact Or.inl ⟨e, hin, hh⟩
   · exact Or.inr (carried_sound _ k _ hh)
+
+theorem diff_uOpts (old new : Index) :
+    diff uOpts (some old) (some new) =
+      diffAt uOpts (some old) (some new) (max (maxDepth (some old)) (maxDepth (some new)) + 2) [] := by
+  unfold diff uOpts
+  simp
+
+/-- **a carried hash crosses equal metadata only, at the whole-index level**: when `update` replaces the hash of the entry
+    at `k`, both indexes have an entry at `k`, the new hash is the old entry's, and the metadata-only comparison of the two
+    entries (`_diff_entry` with `meta_only`) says unchanged - so `update_copies_only_equal_meta` applies to them. -/
+theorem update_carried_equal_meta (old new : Index) (k : Key) (e' : Entry) (hm : (k, e') ∈ update old new)
+    (hne : ∀ e, (k, e) ∈ new → e'.hashInfo ≠ e.hashInfo) :
+    ∃ o e, entryOf (some old) k = some o ∧ entryOf (some new) k = some e ∧ e'.hashInfo = o.hashInfo ∧
+      diffEntry uOpts (some o) (some e) = .unchanged := by
+  rcases update_dir_hash_only_if_clean old new k e' hm with ⟨e, hin, heq⟩ | ⟨c, hc, ht, ⟨ok, o, e, ho, hn, hh⟩, _⟩
+  · exact absurd heq (hne e hin)
+  · rw [diff_uOpts] at hc
+    obtain ⟨k', htyp, hold, hnew, _, _⟩ := diffAt_sound uOpts (some old) (some new) _ _ c hc
+    rw [hn] at hnew
+    rw [ho] at hold
+    cases hen : entryOf (some new) k' with
+    | none => rw [hen] at hnew; simp at hnew
+    | some en =>
+      rw [hen] at hnew
+      simp only [Option.map_some, Option.some.injEq, Prod.mk.injEq] at hnew
+      obtain ⟨hk, rfl⟩ := hnew
+      subst hk
+      cases heo : entryOf (some old) k with
+      | none => rw [heo] at hold; simp at hold
+      | some eo =>
+        rw [heo] at hold
+        simp only [Option.map_some, Option.some.injEq, Prod.mk.injEq] at hold
+        obtain ⟨_, rfl⟩ := hold
+        refine ⟨o, e, by first | rfl | exact heo, by first | rfl | exact hen, hh, ?_⟩
+        rw [← ht, htyp]
+        first | rfl | rw [heo, hen]
 
 /-! non-vacuity: a directory with a tree hash, a file below it modified -> not carried; nothing modified -> carried -/
 private def hi (v : String) : Option HashInfo := some { name := some kMd5, value := some v.toList }
